@@ -130,7 +130,7 @@ func c17CliExec(raw json.RawMessage, hist []string, deep bool) *bfsResult {
 	dev := key("kDev")
 	servers := allScripted()
 	s0 := servers["S0"]
-	cfg := cliConfig{Key: dev, ShortID: 5, GCA: key("G1").Pub, HistoryOffset: 0,
+	cfg := cliConfig{Key: dev, ShortID: 4294967295, GCA: key("G1").Pub, HistoryOffset: 3,
 		Servers: map[glow.PublicKey]client.GCAServer{s0.Key.Pub: s0.entry()}}
 	w, err := newClientWorld(cfg)
 	if err != nil {
@@ -148,7 +148,7 @@ func c17CliExec(raw json.RawMessage, hist []string, deep bool) *bfsResult {
 		}
 		w.Cleanup()
 	}()
-	m := &cliModel{GCA: "G1", ID: 5, Servers: map[glow.PublicKey]client.GCAServer{s0.Key.Pub: s0.entry()}}
+	m := &cliModel{GCA: "G1", ID: 4294967295, Servers: map[glow.PublicKey]client.GCAServer{s0.Key.Pub: s0.entry()}}
 	variants := c17Variants(dev.Pub)
 	var current string  // reply variant for this round
 	var roundGCA string // the client's GCA when the round starts
